@@ -772,7 +772,7 @@ def result_shape(name):
 def enumerate_index(tier):
     quick = tier == "quick"
     for name in ENUM_2D:
-        for ix in family(result_shape(name)):
+        for ix in family(result_shape(name), zero_width="front" if quick else "all"):
             yield {"setup": name, "idx": ix}
     for name in ENUM_BATCH:
         for ix in family(result_shape(name), reduced_matrix=quick, zero_width="front" if quick else "all"):
@@ -804,9 +804,9 @@ EXH_NOTE = ("index.exhaustive: for each of the fixed kernel set-ups of pbt/props
             "LCMKernel, RBFKernelGrad, Matern52KernelGrad, PolynomialKernelGrad, RBFKernelGradGrad; un-batched and batched with "
             "every x1/x2/kernel broadcast pattern) every index tuple of the family {all non-negative ints (all ints on batch dims), "
             "slices with start/stop in {None,1,2,-1,size+2} x step in {None,2}, index tensors [0], [size-1,0], [0,0,size-1]} per "
-            "dimension: full-length tuples, all prefixes, and `...` in every position (also standing for zero dimensions).  2-d results: "
-            "the complete product; results with one batch dimension: complete on the batch dimension x a 10-element cross-section on the "
-            "two matrix dimensions (zero-width `...` in front only) in the quick tier, the complete product in the thorough tier; results "
+            "dimension: full-length tuples, all prefixes, and `...` in every position (a zero-width `...` in front only in the quick tier, in "
+            "every position in the thorough tier).  2-d results: the complete product; results with one batch dimension: complete on the "
+            "batch dimension x a 10-element cross-section on the two matrix dimensions in the quick tier, the complete product in the thorough tier; results "
             "with two batch dimensions (thorough only): complete on the batch dimensions x the cross-section.  Negative ints on matrix "
             "dimensions are excluded (counted).")
 
@@ -1060,6 +1060,12 @@ def run_active_dims(case, ctx: Ctx):
     common_labels(ctx, r, x1, x2)
     ctx.label(f"ad.mode={mode}", f"ad.lazy={case['lazy']}")
     ctx.set_nontrivial(True)
+    if r["k"] == "Inducing" and mode == "two":
+        A = [l for l in leaves(r)][0]["ad"]
+        if torch.equal(x1[..., A], x2[..., A]) != torch.equal(x1, x2):
+            # InducingPointKernel adds its diagonal correction iff torch.equal(x1, x2): inputs that coincide on the active
+            # columns only are "equal" for the restricted reference and "different" for the kernel under test
+            raise Discard("InducingPointKernel: x1, x2 coincide on the active columns only")
     want = restricted_value(r, x1, x2, ctx)
     tl = tol(r)
     with ctx.observing("evaluate"):
@@ -1260,19 +1266,19 @@ SPEC = PropertySpec(
         "batch permutation of the lazy tensor (_permute_batch) is not part of the stated relations",
     ],
     subchecks=[
-        Subcheck("route.diag", run_diag, strategy=diag_case, quick=1500, thorough=30000, min_shard=60),
-        Subcheck("route.transpose", run_transpose, strategy=setup, quick=1500, thorough=30000, min_shard=60),
-        Subcheck("route.lazy_eager", run_lazy_eager, strategy=lazy_case, quick=1500, thorough=30000, min_shard=60),
-        Subcheck("index.sampled", run_index, strategy=index_case, quick=12000, thorough=250000, min_shard=200),
+        Subcheck("route.diag", run_diag, strategy=diag_case, quick=640, thorough=30000, min_shard=40),
+        Subcheck("route.transpose", run_transpose, strategy=setup, quick=640, thorough=30000, min_shard=40),
+        Subcheck("route.lazy_eager", run_lazy_eager, strategy=lazy_case, quick=640, thorough=30000, min_shard=40),
+        Subcheck("index.sampled", run_index, strategy=index_case, quick=8000, thorough=250000, min_shard=200),
         Subcheck("index.exhaustive", run_index_enum, enumerate=enumerate_index, exhaustive_note=EXH_NOTE),
-        Subcheck("lazy.ops", run_ops, strategy=ops_case, quick=3000, thorough=60000, min_shard=100),
-        Subcheck("blocks.stacked", run_blocks, strategy=blocks_case, quick=1500, thorough=30000, min_shard=60),
+        Subcheck("lazy.ops", run_ops, strategy=ops_case, quick=2400, thorough=60000, min_shard=100),
+        Subcheck("blocks.stacked", run_blocks, strategy=blocks_case, quick=800, thorough=30000, min_shard=50),
         Subcheck("active_dims.restrict", run_active_dims, strategy=ad_case, quick=3000, thorough=60000, min_shard=100),
-        Subcheck("batch.getitem", run_getitem, strategy=getitem_case, quick=3000, thorough=60000, min_shard=100),
+        Subcheck("batch.getitem", run_getitem, strategy=getitem_case, quick=2400, thorough=60000, min_shard=100),
         Subcheck("batch.getitem_exhaustive", run_getitem_enum, enumerate=enumerate_getitem,
                  exhaustive_note="batch.getitem_exhaustive: kernel[idx] for every index tuple (all ints of both signs, the slice family, three index "
                                  "tensors; all prefixes) over the batch dimensions of 7 fixed batched kernels (batch shapes (2,), (3,2); with and "
                                  "without active_dims; composed, multitask, derivative)"),
-        Subcheck("batch.expand", run_expand, strategy=expand_case, quick=2000, thorough=40000, min_shard=80),
+        Subcheck("batch.expand", run_expand, strategy=expand_case, quick=1600, thorough=40000, min_shard=80),
     ],
 )
